@@ -195,6 +195,21 @@ def ob_meta_sym(ctx, encs, N):
                    sample=lambda m: wit(m))
 
 
+def ob_history(ctx, K, encs, N):
+    """container histories (each container declaring an encoding or not, symbolic probe preambles, non-ASCII
+    metadata): the bytes equal the canonical serialisation, where every inheriting section is encoded with the
+    nearest declaring *ancestor* (never a sibling)"""
+    from harness.C01 import history_script
+    script, probes, wit0 = history_script(ctx, K, encs, N)
+    wit = lambda m: dict(wit0(m), main=script.main_encoding)
+    got, exp = _run(ctx, script, wit)
+    if exp is None:
+        return got
+    props = [('bytes-equal-canonical-serialisation', seq_eq(got, exp))] + _struct_props(got)
+    return verdict(ctx, props, witness=lambda m: dict(wit(m), got=model_bytes(m, got), expected=model_bytes(m, exp)),
+                   sample=lambda m: wit(m))
+
+
 def _enc_configs(cat):
     return [(e, 'utf-8') for e in cat] + [(None, e) for e in cat]
 
@@ -217,6 +232,11 @@ def obligations(tier):
                   desc='real writer vs REF_WRITE; diff bytes symbolic', bounds={'diff_len': [1, N + 1]}))
     obs.append(Ob('meta', ob_meta, dict(encs=_enc_configs(cat)), must_reach=['DiffXWriter.write_meta'],
                   desc='metadata catalogue x encodings x levels vs REF_WRITE', bounds={'catalogue': len(METAS)}))
+    K = 4 if quick else 5
+    obs.append(Ob('history[K<=%d]' % K, ob_history, dict(K=K, encs=['utf-16', 'latin-1'] if quick else ['utf-16', 'latin-1', 'utf-32-be'], N=1),
+                  must_reach=['DiffXWriter._write_section_header'], path_timeout=30,
+                  desc='container histories up to %d containers, each declaring an encoding or not, symbolic probe preambles: '
+                       'bytes == REF_WRITE (inheritance from the nearest declaring ancestor)' % K, bounds={'containers': K}))
     NM = 1 if quick else 2
     menc = _enc_configs(cat) if not quick else [(None, 'utf-8'), ('utf-16', 'utf-8'), (None, 'utf-32-be'), ('latin-1', 'utf-16'), (None, 'ascii')]
     obs.append(Ob('meta[symbolic]', ob_meta_sym, dict(encs=menc, N=NM), must_reach=['DiffXWriter.write_meta'], path_timeout=30,
@@ -262,6 +282,11 @@ def replay(ob, label, w):
     elif kind == 'diff':
         script = Script('utf-8').add('.change', 'new_change').add('..file', 'new_file', **({} if w['file_enc'] is None else {'encoding': w['file_enc']}))
         script.add('...meta', 'write_meta', {'path': 'f'}).add('...diff', 'write_diff', w['content'], **w['kw'])
+    elif kind == 'history':
+        script = Script(w['main_encoding'])
+        sids = {'new_change': '.change', 'new_file': '..file', 'write_preamble': '..preamble', 'write_meta': '...meta'}
+        for fn, a, k in w['calls']:
+            script.add(sids[fn], fn, *a, **k)
     else:
         script = prefix_for(w['sid'], Script(w['main']))
         script.add(w['sid'], 'write_meta', w['meta'], **({} if w['own'] is None else {'encoding': w['own']}))
